@@ -214,6 +214,7 @@ def _count(files, out):
     table_role = collections.defaultdict(collections.Counter)    # table kind -> role -> overwrites of table-level fields
     ref_kinds = collections.Counter()                            # reference-class overwrites per kind of field
     rel_kinds = collections.defaultdict(collections.Counter)     # table kind -> relational class -> applied overwrites that changed the bytes
+    rel_jobs = {}                                                # case -> (table kind, class) of a single relational overwrite
     died = collections.defaultdict(collections.Counter)
     ok_to_err = collections.Counter()
     more_err = collections.Counter()
@@ -254,6 +255,8 @@ def _count(files, out):
                             table_role[ft[4]][ft[1]] += 1
                         if ft[2] in REL_PREV + REL_NEXT and ft[9] != "" and ft[9] != ft[8]:
                             rel_kinds["dir" if ft[3] == "dir" else ft[4]][ft[2]] += 1
+                            if a["nf"] == 1:
+                                rel_jobs[c] = ("dir" if ft[3] == "dir" else ft[4], ft[2])
                         if ft[2] in ("self", "parent") and ft[9] != "":
                             ref_kinds["%s:%s:%s" % ("dir" if ft[3] == "dir" else ft[4], ft[1], _norm_field(ft[5]))] += 1
                     if noticed and g != "container" and a["nf"] >= 1 and a["nf"] not in [x["nf"] for x in samples]:
@@ -261,7 +264,14 @@ def _count(files, out):
                                         "calls_ok": o["ok"], "calls_err": o["err"], "baseline": a["base"]})
                 elif noticed:
                     jobs[c] = True
+    # informational (depends on what allsorts answered, so never a vacuity criterion): single relational overwrites that some
+    # group answered differently from its baseline
+    rel_noticed = collections.defaultdict(collections.Counter)
+    for c, (t, vc) in rel_jobs.items():
+        if jobs.get(c):
+            rel_noticed[t][vc] += 1
     out.update({
+        "relational_overwrites_noticed_per_table_kind": {t: dict(c) for t, c in sorted(rel_noticed.items())},
         "fault_sequences_run": len(jobs),
         "fault_sequences_noticed": sum(1 for v in jobs.values() if v),
         "inputs": len(inputs),
@@ -514,7 +524,7 @@ def run(ctx):
     for k in ("fault_sequences_run", "inputs", "faults_per_role", "faults_per_value_class", "faults_per_kind", "faults_per_level",
               "sequences_per_length", "outcomes_per_group", "ok_to_err_per_group", "more_failing_calls_than_on_intact_per_group",
               "flaky_events", "overwrites_per_table_kind_and_role", "reference_class_overwrites_per_field_kind",
-              "relational_class_overwrites_per_table_kind", "process_deaths_per_group"):
+              "relational_class_overwrites_per_table_kind", "relational_overwrites_noticed_per_table_kind", "process_deaths_per_group"):
         coverage[k] = counters[k]
     vlib.finish(ctx, LEVEL, coverage, violations, ASSUMPTIONS)
 
